@@ -36,7 +36,8 @@ class History:
         self.pad_mode = pad_mode
         self.bad = set(bad)
         self.proj = bl.Project(structured=(structured if structured_key == "explicit" else None), use_cache=use_cache,
-                               tmp_on_other_fs=tmp_on_other_fs, extensions=extensions)
+                               tmp_on_other_fs=tmp_on_other_fs, extensions=extensions,
+                               macros=(bl.TWO_MODULES if head_style.startswith("twomodules") else bl.DEFAULT_MACROS))
         self.config_class = config_class
         self.opaque = opaque      # large trees: the statement-level abstraction is not handed to TLC (quadratic operators)
         self.use_cache = use_cache
@@ -221,6 +222,7 @@ class History:
             data = b"// not utf-8 \xff\xfe\n" + self._text(n).encode("utf-8")
         else:
             data = self._text(n).encode("utf-8")
+        os.makedirs(os.path.dirname(p), exist_ok=True)
         with open(p, "wb") as fh:
             fh.write(data)
 
